@@ -63,7 +63,10 @@ def check(ctx, case):
         for s in env:
             ctx.count("kind:" + U.shape_kind(s))
     res = {}
-    for op in "|&-^":
+    # float / curved data: ^ joins two halves that touch at crossing points which are no longer bit-identical
+    # (inexact contact, known finding F17 under C01): the inexact streams use | & - and ~ only
+    ops = "|&-^" if exact else "|&-"
+    for op in ops:
         A, B = mk()
         try:
             with U.time_limit(300):
@@ -100,13 +103,14 @@ def check(ctx, case):
                 fails.append(Fail(kind="K", what="moments of the operator result differ from the model's", op=op))
     for (a, b) in MOMS:
         mA, mB = _m(A, a, b), _m(B, a, b)
-        mo, ma, ms, mx, mn = (_m(res["|"][1], a, b), _m(res["&"][1], a, b), _m(res["-"][1], a, b),
-                              _m(res["^"][1], a, b), _m(nA[1], a, b))
+        mo, ma, ms, mn = (_m(res["|"][1], a, b), _m(res["&"][1], a, b), _m(res["-"][1], a, b), _m(nA[1], a, b))
+        mx = _m(res["^"][1], a, b) if "^" in res else None
         scale = max(abs(mA), abs(mB), abs(mo), abs(ma))
         ids = [("m(A|B)+m(A&B) = m(A)+m(B)", mo + ma, mA + mB),
                ("m(A-B) = m(A)-m(A&B)", ms, mA - ma),
-               ("m(A^B) = m(A|B)-m(A&B)", mx, mo - ma),
                ("m(~A) = -m(A)", mn, -mA)]
+        if mx is not None:
+            ids.append(("m(A^B) = m(A|B)-m(A&B)", mx, mo - ma))
         for name, lhs, rhs in ids:
             # Whole counts as 0: an unbounded result has the negative convention, which the identities respect
             # except when Whole/Empty collapse loses the measure (A|B = Whole): handled by _m(Whole) = 0 only
